@@ -23,8 +23,12 @@ LONG = 300
 FK = 40
 
 
-def h_restart(kind, state, chain, pipemode, fk):
+IDENTS = [("the-name", 42), ("", 0), ("w", 0.0)]       # names and user ids are arbitrary user values, falsy ones included
+
+
+def h_restart(kind, state, chain, pipemode, fk, ident=0):
     with notrace():
+        ident_ = conc(ident, len(IDENTS))
         kind_ = 3 + conc(kind, 3)
         state_, chain_, pipemode_ = conc(state, len(STATES)), 1 + conc(chain, 3), conc(pipemode, 2)
         fk_ = conc(fk, FK + 1) if kind_ == 5 else 0
@@ -36,7 +40,7 @@ def h_restart(kind, state, chain, pipemode, fk):
             if fk_:
                 # the parent-side forwarding thread of the first incarnation is slow at its (fk-1)-th statement
                 wsim.Landing(W, kind_, fk_ - 1, action="delay", select=wsim.frontend_actor, delay=2.0)
-            sig, inter = _run(W, kind_, state_, chain_, pipemode_)
+            sig, inter = _run(W, kind_, state_, chain_, pipemode_, IDENTS[ident_])
         except Hang:
             sig, inter = "c17.restart-blocks-forever", True
         except Killed:
@@ -61,7 +65,7 @@ def child_procs(W):
     return {pid for pid, p in W.sim.procs.items() if not p.exited and pid != getattr(W, "server_pid", None)}
 
 
-def _run(W, kind, state, chain, pipemode):
+def _run(W, kind, state, chain, pipemode, ident=IDENTS[0]):
     s = W.sim
     thread = wsim.is_thread_kind(kind)
     kw = {}
@@ -69,7 +73,7 @@ def _run(W, kind, state, chain, pipemode):
     if pipemode:
         first_pipe = utils.Pipe()
         kw["results_pipe"] = first_pipe
-    w = W.make(kind, flexi, args=["ok"], name="the-name", userid=42, **kw)
+    w = W.make(kind, flexi, args=["ok"], name=ident[0], userid=ident[1], **kw)
     for inc in range(chain):
         old_id = w.id
         old_procs = child_procs(W)
@@ -126,7 +130,7 @@ def _run(W, kind, state, chain, pipemode):
         # ---- the new incarnation
         if not w.is_alive():
             return "c17.restarted-worker-not-alive", True
-        if w.name != "the-name" or w.userid != 42:
+        if w.name != ident[0] or w.userid != ident[1] or type(w.userid) is not type(ident[1]):
             return "c17.name-or-userid-lost", True
         if not thread and w.id == old_id:
             return "c17.identity-not-renewed", True
@@ -168,7 +172,7 @@ def _run(W, kind, state, chain, pipemode):
     return None, state != 0
 
 
-_params = OrderedDict([("kind", (0, 2)), ("state", (0, len(STATES) - 1)), ("chain", (0, 2)), ("pipemode", (0, 1)), ("fk", (0, FK))])
+_params = OrderedDict([("kind", (0, 2)), ("state", (0, len(STATES) - 1)), ("chain", (0, 2)), ("pipemode", (0, 1)), ("fk", (0, FK)), ("ident", (0, len(IDENTS) - 1))])
 
 _FUNCS = ["pyworkers.persistent:PersistentWorker.restart", "pyworkers.worker:Worker._get_restart_args", "pyworkers.remote:RemoteWorker._get_restart_args",
           "pyworkers.persistent_thread:PersistentThreadWorker.__init__", "pyworkers.persistent_process:PersistentProcessWorker.__init__",
@@ -179,8 +183,10 @@ _FUNCS = ["pyworkers.persistent:PersistentWorker.restart", "pyworkers.worker:Wor
 H_RESTART = Harness(
     "restart", "vf.props.c17:h_restart", _params,
     tiers={
-        "quick": {"ranges": {"chain": (0, 1)}, "partition": ["kind", "state"], "timeout": 300, "twin_fixed": {"kind": 1, "state": 1}},
-        "thorough": {"partition": ["kind", "state", "chain", "pipemode"], "timeout": 600, "twin_fixed": {"kind": 1, "state": 1, "chain": 1, "pipemode": 0}},
+        "quick": {"ranges": {"chain": (0, 1)}, "partition": ["kind", "state"], "timeout": 300, "twin_fixed": {"kind": 1, "state": 1},
+                  "extra_pre": ["ident == 0 or (pipemode == 0 and fk == 0 and chain == 0)"]},
+        "thorough": {"partition": ["kind", "state", "chain", "pipemode"], "timeout": 600, "twin_fixed": {"kind": 1, "state": 1, "chain": 1, "pipemode": 0},
+                     "extra_pre": ["ident == 0 or fk == 0"]},
     },
     functions=_FUNCS,
 )
